@@ -239,7 +239,7 @@ class BLE(Connector):
         Determine if the device implements an injection mode.
         """
         capabilities = self.device.get_domain_capability(Domain.BtLE)
-        return self.can_send() and (capabilities & (1 << Capability.Inject) > 0)
+        return self.can_send() and (capabilities & Capability.Inject > 0)
 
 
     def can_hijack_master(self):
